@@ -263,7 +263,7 @@ class C03(F.Check):
             if f.opcode != op:
                 problems.append(('wrong-opcode', '%s wrote opcode %d' % (label, f.opcode), label))
                 continue
-            if bool(f.rsv1) != want_rsv1:
+            if f.rsv1 and not want_rsv1:      # RSV1 clear is always legal (the client may send any message uncompressed)
                 problems.append(('rsv1', '%s: RSV1=%d but negotiated=%r compress=%r' % (label, f.rsv1, neg, exp[3] if exp[0] == 'frame' else True), label))
                 continue
             body = f.payload
